@@ -321,6 +321,74 @@ def rule_py_seed(ctx, py):
     ctx.floor(R, 7)
 
 
+FRESH = ("copy", "deepcopy", "convert", "array", "UnitArray", "UnitValue", "UnitsSystem", "list", "dict", "tuple", "float", "int",
+         "str", "encode")
+
+
+def _aliases(fn, roots):
+    """names of fn that may denote (part of) the objects the `roots` parameters denote: a plain name / attribute / subscript
+    chain rooted at an alias propagates the alias; a call (copy(), convert(), a constructor ...) yields a fresh object"""
+    al = set(roots)
+    changed = True
+    while changed:
+        changed = False
+        for n in ast.walk(fn):
+            if isinstance(n, ast.Assign) and len(n.targets) == 1 and isinstance(n.targets[0], ast.Name):
+                v = n.value
+                while isinstance(v, (ast.Attribute, ast.Subscript)):
+                    v = v.value
+                if isinstance(v, ast.Name) and v.id in al and n.targets[0].id not in al:
+                    al.add(n.targets[0].id)
+                    changed = True
+    return al
+
+
+def rule_py_pure(ctx, py):
+    """C08.PY-PURE -- running a simulation does not modify the script (or the system inside it) that the caller handed in:
+    otherwise the second use of the same script is not the first one repeated"""
+    R = "C08.PY-PURE"
+    MUT = ("append", "extend", "insert", "pop", "remove", "clear", "sort", "reverse", "update", "setdefault", "fill", "resize")
+    n = 0
+    for q, roots in (("librdengine.LibRDEngine.setup", ["script"]), ("librdengine.LibRDEngine._setup_grid", ["script"]),
+                     ("librdengine.LibRDEngine._setup_graph", ["script"]), ("simulate.simulate_script", ["script"])):
+        f = py.fn(q)
+        roots = [r for r in roots if r in pyfe.params(f)]
+        ctx.need(roots, R, "%s: parameter `script` not found" % q)
+        al = _aliases(f, roots)
+        rebound = {t.id for x in ast.walk(f) if isinstance(x, ast.Assign) for t in x.targets if isinstance(t, ast.Name) and
+                   t.id in roots}
+        bad = []
+        for x in ast.walk(f):
+            tg = []
+            if isinstance(x, ast.Assign):
+                tg = x.targets
+            elif isinstance(x, (ast.AugAssign, ast.AnnAssign)):
+                tg = [x.target]
+            elif isinstance(x, ast.Delete):
+                tg = x.targets
+            for t in tg:
+                if isinstance(t, (ast.Attribute, ast.Subscript)):
+                    b = t
+                    while isinstance(b, (ast.Attribute, ast.Subscript)):
+                        b = b.value
+                    if isinstance(b, ast.Name) and b.id in al and b.id not in rebound:
+                        bad.append((x, "`%s` is written" % pyfe.src(t)))
+            if isinstance(x, ast.Call) and isinstance(x.func, ast.Attribute) and x.func.attr in MUT:
+                b = x.func.value
+                while isinstance(b, (ast.Attribute, ast.Subscript)):
+                    b = b.value
+                if isinstance(b, ast.Name) and b.id in al and b.id not in rebound:
+                    bad.append((x, "`%s` is modified in place" % pyfe.src(x.func.value)))
+        n += 1
+        if bad:
+            x, why = bad[0]
+            ctx.violation(R, x, q, pyfe.src(x)[:80], "%s, and %s is (part of) the caller's script (aliases: %s): a later run of the "
+                          "same script differs from the first" % (why, why.split("`")[1].split(".")[0], sorted(al)))
+        else:
+            ctx.ok(R, f, q, "no store through %s" % sorted(al), "the caller's script is only read")
+    ctx.floor(R, 4)
+
+
 def rule_euler(ctx, tu, eff):
     R = "C08.EULER"
     for cname in ("Euler3D", "EulerGraph"):
@@ -352,6 +420,7 @@ def run(ctx):
     rule_init_all(ctx, tu, eff)
     rule_slice(ctx, tu)
     rule_py_seed(ctx, py)
+    rule_py_pure(ctx, py)
     rule_euler(ctx, tu, eff)
     ctx.assume("bit-identity across compilers / libm versions is not decided (same binary assumed); the sharing of the "
                "global simulation between engine objects is C10.ISOLATION")
